@@ -168,6 +168,16 @@ def eraseId (id : Id) (n : Node) : Node :=
   { n with dependents := n.dependents.filter (· != id),
            dependencies := n.dependencies.filter (· != id) }
 
+/-- (d): `eraseId` touches nothing but the two edge lists -/
+theorem eraseId_fields (id : Id) (n : Node) :
+    (eraseId id n).value = n.value ∧ (eraseId id n).callback = n.callback ∧
+    (eraseId id n).children = n.children ∧ (eraseId id n).parent = n.parent ∧
+    (eraseId id n).cleanups = n.cleanups ∧ (eraseId id n).context = n.context ∧
+    (eraseId id n).dirty = n.dirty ∧ (eraseId id n).mark = n.mark ∧
+    (eraseId id n).dependents = n.dependents.filter (· != id) ∧
+    (eraseId id n).dependencies = n.dependencies.filter (· != id) :=
+  ⟨rfl, rfl, rfl, rfl, rfl, rfl, rfl, rfl, rfl, rfl⟩
+
 theorem removeNode_dead {r : Root} {id : Id} (h : r.get? id = none) : removeNode r id = r := by
   simp [removeNode, h]
 
@@ -310,6 +320,15 @@ def unlinked (cur j : Id) (m : Node) : Node :=
   { m with dependents := m.dependents.filter (· != cur),
            dependencies := if j = cur then [] else m.dependencies }
 
+theorem unlinked_fields (cur j : Id) (m : Node) :
+    (unlinked cur j m).value = m.value ∧ (unlinked cur j m).callback = m.callback ∧
+    (unlinked cur j m).children = m.children ∧ (unlinked cur j m).parent = m.parent ∧
+    (unlinked cur j m).cleanups = m.cleanups ∧ (unlinked cur j m).context = m.context ∧
+    (unlinked cur j m).dirty = m.dirty ∧ (unlinked cur j m).mark = m.mark ∧
+    (unlinked cur j m).dependents = m.dependents.filter (· != cur) ∧
+    (unlinked cur j m).dependencies = if j = cur then [] else m.dependencies :=
+  ⟨rfl, rfl, rfl, rfl, rfl, rfl, rfl, rfl, rfl, rfl⟩
+
 theorem unlink_spec {r : Root} (hnd : NoDangling r) (hs : EdgesSym r) {cur : Id} {n : Node}
     (hn : r.get? cur = some n) :
     ∃ r2, unlink cur (r.setNode cur { n with dependencies := [] }) n.dependencies = .ok r2 ∧
@@ -381,6 +400,15 @@ one copy of `d` is appended to `dependents` per occurrence of `j` in `L`; `d` it
 def linked (L : List Id) (d j : Id) (m : Node) : Node :=
   { m with dependents := m.dependents ++ List.replicate (L.count j) d,
            dependencies := if j = d then L else m.dependencies }
+
+theorem linked_fields (L : List Id) (d j : Id) (m : Node) :
+    (linked L d j m).value = m.value ∧ (linked L d j m).callback = m.callback ∧
+    (linked L d j m).children = m.children ∧ (linked L d j m).parent = m.parent ∧
+    (linked L d j m).cleanups = m.cleanups ∧ (linked L d j m).context = m.context ∧
+    (linked L d j m).dirty = m.dirty ∧ (linked L d j m).mark = m.mark ∧
+    (linked L d j m).dependents = m.dependents ++ List.replicate (L.count j) d ∧
+    (linked L d j m).dependencies = if j = d then L else m.dependencies :=
+  ⟨rfl, rfl, rfl, rfl, rfl, rfl, rfl, rfl, rfl, rfl⟩
 
 theorem createDependencyLink_dead {r : Root} {d : Id} (deps : List Id) (h : r.get? d = none) :
     createDependencyLink r deps d = r := by
@@ -494,7 +522,7 @@ theorem setNode_sameEdges_preserves {r : Root} {id : Id} {n n' : Node} (hn : r.g
   · subst hj
     exact ⟨fun m => { n' with dependents := m.dependents, dependencies := m.dependencies }, by simp,
       by simp [Root.get?_setNode, Root.lt_size_of_get? hn, hn, ← h1, ← h2]⟩
-  · exact ⟨id, by simp, by simp [Root.get?_setNode, hj]⟩
+  · exact ⟨fun m => m, by simp, by simp [Root.get?_setNode, hj]⟩
 
 theorem modify_sameEdges_preserves {r : Root} (id : Id) {f : Node → Node}
     (hf : ∀ m, (f m).dependents = m.dependents ∧ (f m).dependencies = m.dependencies) :
@@ -503,7 +531,7 @@ theorem modify_sameEdges_preserves {r : Root} (id : Id) {f : Node → Node}
   intro j
   by_cases hj : j = id
   · subst hj; exact ⟨f, hf, by simp [Root.get?_modify]⟩
-  · exact ⟨_root_.id, by simp, by simp [Root.get?_modify, hj]⟩
+  · exact ⟨fun m => m, by simp, by simp [Root.get?_modify, hj]⟩
 
 /-! ### 6. `createNode` -/
 
@@ -516,6 +544,25 @@ def freshNode (value : Option Int) (parent : Option Id) : Node :=
 def addChild (cur : Option Id) (id j : Id) (m : Node) : Node :=
   { m with children := if cur = some j then m.children ++ [id] else m.children }
 
+/-- the arena after `nodes.insert(fresh)` -/
+def pushFresh (r : Root) (v : Option Int) : Root :=
+  { r with nodes := r.nodes.push (some (freshNode v r.current)) }
+
+theorem createNode_eq (r : Root) (v : Option Int) :
+    createNode r v =
+      match r.current with
+      | none => .ok (pushFresh r v, r.nodes.size)
+      | some cur =>
+        match (pushFresh r v).get? cur with
+        | none => .error .slotKey
+        | some c => .ok ((pushFresh r v).setNode cur { c with children := c.children ++ [r.nodes.size] },
+            r.nodes.size) := rfl
+
+theorem pushFresh_get? (r : Root) (v : Option Int) (j : Id) :
+    (pushFresh r v).get? j = if j = r.nodes.size then some (freshNode v r.current) else r.get? j := by
+  simp only [pushFresh, Root.get?, Array.getElem?_push]
+  split <;> simp
+
 /-- what `createNode` does: slot `r.nodes.size` receives `freshNode`, and the current node (if any)
 gets the new id appended to its `children` -/
 theorem createNode_get? {r r' : Root} {v : Option Int} {id : Id} (h : createNode r v = .ok (r', id)) :
@@ -525,46 +572,126 @@ theorem createNode_get? {r r' : Root} {v : Option Int} {id : Id} (h : createNode
     r'.nodes.size = r.nodes.size + 1 ∧ r'.tracker = r.tracker ∧ r'.current = r.current ∧
     r'.rootNode = r.rootNode ∧ r'.queue = r.queue ∧ r'.batching = r.batching ∧
     r'.nextTag = r.nextTag ∧ r'.trace = r.trace := by
-  have push : ∀ j, ({ r with nodes := r.nodes.push (some (freshNode v r.current)) } : Root).get? j
-      = if j = r.nodes.size then some (freshNode v r.current) else r.get? j := by
-    intro j
-    simp only [Root.get?, Array.getElem?_push]
-    split <;> simp
-  unfold createNode at h
-  simp only at h
+  rw [createNode_eq] at h
   split at h
   · rename_i hc
     simp only [Except.ok.injEq, Prod.mk.injEq] at h
     obtain ⟨rfl, rfl⟩ := h
-    refine ⟨rfl, ?_, by simp, rfl, rfl, rfl, rfl, rfl, rfl, rfl⟩
+    refine ⟨rfl, ?_, by simp [pushFresh], rfl, rfl, rfl, rfl, rfl, rfl, rfl⟩
     intro j
-    have hc' : r.current = none := hc
-    rw [show freshNode v r.current = _ from rfl] at push
-    rw [push j, hc']
-    cases (if j = r.nodes.size then some _ else r.get? j) <;> simp [addChild]
+    rw [pushFresh_get?, hc]
+    cases (if j = r.nodes.size then some (freshNode v none) else r.get? j) <;> simp [addChild]
   · rename_i cur hc
-    have hc' : r.current = some cur := hc
     split at h
     · cases h
     · rename_i c hcn
       simp only [Except.ok.injEq, Prod.mk.injEq] at h
       obtain ⟨rfl, rfl⟩ := h
-      have hsf := SameFrame.setNode ({ r with nodes := r.nodes.push (some (freshNode v r.current)) } : Root)
+      obtain ⟨s1, s2, s3, s4, s5, s6, s7, s8⟩ := SameFrame.setNode (pushFresh r v)
         cur { c with children := c.children ++ [r.nodes.size] }
-      obtain ⟨s1, s2, s3, s4, s5, s6, s7, s8⟩ := hsf
-      refine ⟨rfl, ?_, by rw [show freshNode v r.current = _ from rfl] at s1; rw [s1]; simp,
-        s2, s3, s4, s5, s6, s7, s8⟩
+      refine ⟨rfl, ?_, by rw [s1]; simp [pushFresh], s2, s3, s4, s5, s6, s7, s8⟩
       intro j
-      rw [show freshNode v r.current = _ from rfl] at push
-      rw [Root.get?_setNode, hc']
       have hlt := Root.lt_size_of_get? hcn
+      rw [Root.get?_setNode, hc]
       by_cases hj : j = cur
       · subst hj
-        rw [if_pos ⟨rfl, hlt⟩, ← push j, hcn]; simp [addChild]
-      · have : ¬ (j = cur ∧ cur < (r.nodes.push (some (freshNode v r.current))).size) := fun h => hj h.1
-        rw [show freshNode v r.current = _ from rfl] at this
-        rw [if_neg this, push j]
+        rw [if_pos ⟨rfl, hlt⟩, ← hc, ← pushFresh_get?, hcn]; simp [addChild, hc]
+      · have : ¬ (j = cur ∧ cur < (pushFresh r v).nodes.size) := fun h => hj h.1
+        rw [if_neg this, pushFresh_get?, hc]
         have hj' : ¬ cur = j := fun e => hj e.symm
-        cases (if j = r.nodes.size then some _ else r.get? j) <;> simp [addChild, hj']
+        cases (if j = r.nodes.size then some (freshNode v (some cur)) else r.get? j) <;> simp [addChild, hj']
+
+theorem createNode_spec {r r' : Root} {v : Option Int} {id : Id} (h : createNode r v = .ok (r', id)) :
+    id = r.nodes.size ∧ r.get? id = none ∧
+    -- the new node
+    (∃ n', r'.get? id = some n' ∧ n'.dependents = [] ∧ n'.dependencies = [] ∧ n'.value = v ∧
+      n'.callback.isNone = true ∧ n'.parent = r.current ∧ n'.cleanups = [] ∧ n'.context = [] ∧
+      n'.dirty = false ∧ n'.mark = .none) ∧
+    r'.alive id = true ∧
+    -- the old nodes: only the `children` of the current node change
+    (∀ j, j ≠ id → r'.get? j = (r.get? j).map (addChild r.current id j)) ∧
+    -- the invariants
+    (NoDangling r → NoDangling r' ∧ (EdgesSym r → EdgesSym r') ∧
+      ∀ j nj, r'.get? j = some nj → id ∉ nj.dependents ∧ id ∉ nj.dependencies) := by
+  obtain ⟨rfl, hget, _⟩ := createNode_get? h
+  have hdead : r.get? r.nodes.size = none := Root.get?_eq_none_of_size_le (Nat.le_refl _)
+  have hnew : r'.get? r.nodes.size = some (addChild r.current r.nodes.size r.nodes.size (freshNode v r.current)) := by
+    rw [hget]; simp
+  have hold : ∀ j, j ≠ r.nodes.size → r'.get? j = (r.get? j).map (addChild r.current r.nodes.size j) := by
+    intro j hj; rw [hget, if_neg hj]
+  refine ⟨rfl, hdead, ⟨_, hnew, by simp [addChild, freshNode]⟩, by simp [Root.alive, hnew], hold, ?_⟩
+  intro hnd
+  -- every node of `r'` has the edge lists of `freshNode` or of the same node of `r`
+  have key : ∀ j m', r'.get? j = some m' →
+      (j = r.nodes.size ∧ m'.dependents = [] ∧ m'.dependencies = []) ∨
+      (j ≠ r.nodes.size ∧ ∃ m, r.get? j = some m ∧ m'.dependents = m.dependents ∧ m'.dependencies = m.dependencies) := by
+    intro j m' hm'
+    by_cases hj : j = r.nodes.size
+    · subst hj; rw [hnew] at hm'; cases hm'; left; simp [addChild, freshNode]
+    · right
+      rw [hold j hj, Option.map_eq_some_iff] at hm'
+      obtain ⟨m, hm, rfl⟩ := hm'
+      exact ⟨hj, m, hm, by simp [addChild]⟩
+  have alive' : ∀ x, r.alive x = true → r'.alive x = true := by
+    intro x hx
+    obtain ⟨m, hm⟩ := Root.alive_iff.1 hx
+    have : x ≠ r.nodes.size := by intro e; subst e; rw [hdead] at hm; cases hm
+    simp [Root.alive, hold x this, hm]
+  have notmem : ∀ j nj, r'.get? j = some nj → r.nodes.size ∉ nj.dependents ∧ r.nodes.size ∉ nj.dependencies := by
+    intro j nj hnj
+    rcases key j nj hnj with ⟨_, e1, e2⟩ | ⟨_, m, hm, e1, e2⟩
+    · simp [e1, e2]
+    · rw [e1, e2]; exact hnd.not_mem_of_dead hdead hm
+  refine ⟨?_, ?_, notmem⟩
+  · intro j m' hm'
+    rcases key j m' hm' with ⟨_, e1, e2⟩ | ⟨_, m, hm, e1, e2⟩
+    · simp [e1, e2]
+    · rw [e1, e2]
+      exact ⟨fun d hd => alive' d ((hnd j m hm).1 d hd), fun d hd => alive' d ((hnd j m hm).2 d hd)⟩
+  · intro hs a b na' nb' ha hb
+    have na_not := notmem a na' ha
+    have nb_not := notmem b nb' hb
+    rcases key a na' ha with ⟨rfl, e1, _⟩ | ⟨_, na, hna, e1, _⟩
+    · rw [e1, List.count_eq_zero.2 nb_not.2]; simp
+    · rcases key b nb' hb with ⟨rfl, _, e2⟩ | ⟨_, nb, hnb, _, e2⟩
+      · rw [e2, List.count_eq_zero.2 na_not.1]; simp
+      · rw [e1, e2]; exact hs a b na nb hna hnb
+
+/-! ### 7. `markDependentsDirty` -/
+
+/-- `j` is in the `dependents` list of the live node `cur` -/
+def isDependentOf (r : Root) (cur j : Id) : Bool :=
+  match r.get? cur with
+  | some n => n.dependents.contains j
+  | none => false
+
+/-- exactly the direct dependents of `cur` get `dirty := true`; nothing else changes -/
+theorem markDependentsDirty_get? (r : Root) (cur j : Id) :
+    (markDependentsDirty r cur).get? j =
+      (r.get? j).map fun m => { m with dirty := m.dirty || isDependentOf r cur j } := by
+  unfold markDependentsDirty isDependentOf
+  cases h : r.get? cur with
+  | none => cases r.get? j <;> simp
+  | some n =>
+    simp only
+    rw [Root.get?_foldl_modify_idem (by intro m; rfl)]
+    by_cases hj : j ∈ n.dependents
+    · cases r.get? j <;> simp [hj]
+    · cases r.get? j <;> simp [hj]
+
+theorem markDependentsDirty_frame (r : Root) (cur : Id) :
+    (∀ j, ∃ b, (markDependentsDirty r cur).get? j = (r.get? j).map fun m => { m with dirty := m.dirty || b }) ∧
+    (NoDangling r → NoDangling (markDependentsDirty r cur)) ∧
+    (EdgesSym r → EdgesSym (markDependentsDirty r cur)) ∧
+    SameFrame r (markDependentsDirty r cur) := by
+  have hp : (NoDangling r → NoDangling (markDependentsDirty r cur)) ∧
+      (EdgesSym r → EdgesSym (markDependentsDirty r cur)) :=
+    sameEdges_preserves fun j => ⟨fun m => { m with dirty := m.dirty || isDependentOf r cur j },
+      fun m => ⟨rfl, rfl⟩, markDependentsDirty_get? r cur j⟩
+  refine ⟨fun j => ⟨_, markDependentsDirty_get? r cur j⟩, hp.1, hp.2, ?_⟩
+  unfold markDependentsDirty
+  split
+  · exact SameFrame.refl r
+  · exact SameFrame.foldl_modify ..
 
 end SycVerif.Reactive
